@@ -86,8 +86,11 @@ def random_history(rng, n):
             evs.append({"op": "len", "g": g})
         elif r < 0.97:
             evs.append({"op": "contains", "g": g, "t": t})
+        elif r < 0.985:
+            evs.append({"op": "contexts_of", "t": t})
         else:
             evs.append({"op": "contexts"})
+    evs.append({"op": "contexts_of", "t": t})
     evs.append({"op": "triples", "g": "D", "pat": ["_", "_", "_"]})
     evs.append({"op": "commit"})
     return evs
